@@ -1404,6 +1404,9 @@ def install(it):
     reg("copy.copy", copy_copy)
     reg("typing.cast", lambda it_, t, v: v)
     reg("functools.cached_property", lambda it_, f: f)
+    L["logging.DEBUG"] = 10
+    L["logging.INFO"] = 20
+    L["logging.WARNING"] = 30
     L["numpy.inf"] = PINF
     L["numpy.newaxis"] = None
     L["numpy.float64"] = Opaque("dtype:float64")
